@@ -95,7 +95,10 @@ def gen_cases(ctx, n_per_kernel):
                 if M.size(e) <= 25:
                     break
                 e = g()
-            cases.append({"kernel": kernel, "env": M.gen_env(rng, profile), "expr": e, "origin": "targeted"})
+            origin = "targeted"
+            if rng.random() < 0.4:      # the same tree with only the parentheses Python's precedences need
+                e, origin = M.minimal_flags(e), "targeted-minimal-parens"
+            cases.append({"kernel": kernel, "env": M.gen_env(rng, profile), "expr": e, "origin": origin})
     # free-form expressions over the whole AST through every kernel (mostly exercises the evaluator and the no-op paths)
     for _ in range(n_per_kernel):
         e = M.gen_expr(rng, rng.randint(1, 25))
@@ -233,12 +236,39 @@ def replay_of(c):
             "origin": c.get("origin")}
 
 
+FRAGMENT_KERNELS = {
+    "kernel_combine_base": ["KCombineSW", "KCombineInst"], "kernel_combine_sw": ["KCombineSW"], "kernel_combine_inst": ["KCombineInst"],
+    "kernel_invert": ["KInvert"], "kernel_generator": ["KGenerator"], "kernel_set_literal": ["KSetLit"], "kernel_hasattr": ["KHasattr"],
+    "kernel_empty_seq": ["KEmptySeq", "KEmptySeqTest"], "kernel_identity": ["KIdentity"],
+}
+
+
+def unjudged_kernels(ctx):
+    """kernels whose source fragment the translator did not recognise: Tables.v then holds a fallback value, which says nothing
+    about the current source, so neither the model comparison nor the guard / finding classes of that kernel mean anything.
+    The broken tie itself is reported by core.finish (translator: fragment ... unrecognised)."""
+    out = set()
+    for u in (ctx.build or {}).get("unrecognised", []):
+        out.update(FRAGMENT_KERNELS.get(u.get("fragment"), []))
+        if u.get("fragment") == "*":
+            out.update(k for ks in FRAGMENT_KERNELS.values() for k in ks)
+    return out
+
+
 def judge(ctx, cases, bad):
+    skip = unjudged_kernels(ctx)
+    for k in sorted(skip):
+        ctx.notes.append(f"kernel {k}: source fragment unrecognised, its cases are not judged against the fallback table")
     for i, c in enumerate(cases):
         if c["cli_failed"]:
             continue
+        if c["kernel"] in skip:
+            ctx.count(f"not_judged:{c['kernel']}")
+            ctx.case({"kernel": c["kernel"], "source": c["text"], "not_judged": True})
+            continue
         k = c["kernel"]
         ctx.count(f"kernel:{k}")
+        ctx.count("parentheses:" + ("minimal" if str(c.get("origin", "")).endswith("minimal-parens") else "every node"))
         ctx.count(f"size:{min(M.size(c['expr']) // 5 * 5, 25)}+")
         ctx.count("orig_outcome:" + c["obs"].split(" ")[0] + ("" if c["obs"].startswith("value") else ":" + c["obs"].split(" ")[1]))
         ctx.count("impl_changed" if c["impl_changed"] else "impl_unchanged")
@@ -306,7 +336,8 @@ def kernel_programs(ctx, cases, bad):
     rng = ctx.rng
     by = {}
     for i, c in enumerate(cases):
-        if c["cli_failed"] or not c["impl_changed"] or c["obs"] != c["obs_after"] or i in bad["guard_holds"] or c["kernel"] == "KEmptySeqTest":
+        if c["cli_failed"] or not c["impl_changed"] or c["obs"] != c["obs_after"] or i in bad["guard_holds"] or c["kernel"] == "KEmptySeqTest" \
+                or c["kernel"] in unjudged_kernels(ctx):
             continue
         by.setdefault(c["kernel"], []).append(c)
     out = []
@@ -322,6 +353,14 @@ def kernel_programs(ctx, cases, bad):
                 src += pre + f"try:\n    r{m} = {text}\n    print('value', show(r{m}))\nexcept BaseException as ex:\n    print('raise', type(ex).__name__)\n"
             out.append({"codemod": KERNELS[k], "name": f"{k}:statements:{n}", "source": src, "extra_files": {"_show.py": M.SHOW_SRC},
                         "concat_ok": False})
+        # the rewritten expression as the whole expression of an f-string replacement field (a display's `{` next to the
+        # field's `{`, conversions and format specifications after it)
+        plain = [c for c in items if c["obs"].startswith("value") and "<" not in c["obs"] and "'" not in c["text"]]
+        for n, c in enumerate(rng.sample(plain, min(len(plain), 4 if ctx.quick() else 20))):
+            field = rng.choice(["{%s}", "{%s!r}", "{%s!r:>12}", "a {%s} b", "{%s}{%s}"])
+            pre = "".join(l + "\n" for l in c["prelude"].splitlines())
+            src = pre + "try:\n    r = f'" + field.replace("%s", c["text"]) + "'\n    print('value', r)\nexcept BaseException as ex:\n    print('raise', type(ex).__name__)\n"
+            out.append({"codemod": KERNELS[k], "name": f"{k}:fstring-field:{n}", "source": src, "concat_ok": False})
     return out
 
 
@@ -368,7 +407,7 @@ def run(ctx: core.Ctx):
         mine = [f for f in b.get("failed", [])]
         ctx.tie_broken.append("proof: the development no longer builds for the current table values (%s)" % (
             "; ".join(f"{f['file']}:{f['line']}: {f['error'][:160]}" for f in mine) or a.get("error", "audit failed")[:300]))
-    n = 70 if ctx.quick() else 500
+    n = 50 if ctx.quick() else 500
     if getattr(ctx, "deep", False):
         n *= 3
     cases = load_corpus() + gen_cases(ctx, n)
